@@ -1,8 +1,765 @@
-//! C19 — not implemented yet (stub).
-use crate::engine::Opts;
-pub fn main(_opts: &Opts) -> i32 {
-    eprintln!("C19: check not implemented");
-    2
+//! C19 — the local resource loader never reads outside its configured directories.
+//!
+//! A sandbox tree (one per worker thread, under one `tempfile` directory per process) holds
+//! the same set of marker files in every directory: inside the directories that get
+//! configured as roots, in siblings, in the parent and "elsewhere". Every file has a
+//! unique content (`MARK:<relative path>`), so the bytes returned by `LocalLoader::get`
+//! identify the file that was opened. Oracle (from the statement): `Ok(bytes)` ⇒ `bytes`
+//! is the content of a file located inside the directory mapped to a configured
+//! namespace that prefixes the IRI. IRIs come from the caller (direct `get`) and from
+//! links in N-Triples / Turtle / JSON-LD documents followed through `Resource`; every
+//! `get` performed on behalf of `Resource` is observed through a spying `Loader` wrapper.
+use crate::engine::*;
+use proptest::prelude::*;
+use serde::{Deserialize, Serialize};
+use serde_json::{json, Value};
+use sophia_api::graph::Graph;
+use sophia_api::term::Term;
+use sophia_api::triple::Triple;
+use sophia_api::MownStr;
+use sophia_inmem::graph::LightGraph;
+use sophia_iri::Iri;
+use sophia_resource::{Loader, LoaderError, LocalLoader, Resource};
+use std::borrow::Borrow;
+use std::cell::RefCell;
+use std::collections::BTreeMap;
+use std::path::{Path, PathBuf};
+use std::sync::atomic::{AtomicUsize, Ordering};
+use std::sync::{Arc, Mutex};
+
+// ------------------------------------------------------------------ the sandbox
+
+/// directories of the sandbox (relative to its base); the same files exist in each
+const DIRS: &[&str] = &[
+    "",
+    "pub",
+    "pub/sub",
+    "pub/sub/deep",
+    "pub/inner",
+    "pub2",
+    "pub2/sub",
+    "pub2/inner",
+    "pub-evil",
+    "outside",
+    "pub/%2e%2e",
+    "pub/%2f",
+    // reachable only if a namespace is matched without its final '/' (http://ex/nsx/ -> ns + "x/")
+    "pub/x",
+    "pub2/x",
+];
+/// files present in every directory (`f`, `g`, `h`, `i` exist only with an extension:
+/// content-negotiation emulation)
+const FILES: &[&str] = &[
+    "a.ttl", "a", "b.nt", "c.jsonld", "d.rdf", "f.ttl", "g.nt", "h.jsonld", "i.rdf", "secret.ttl", "x.y.ttl", ".hidden",
+];
+
+/// configurable (namespace, directory) pairs; a case picks 1..=3 of them, in order
+const CACHE_POOL: &[(&str, &str)] = &[
+    ("http://ex/ns/", "pub"),
+    ("http://ex/ns/inner/", "pub/inner"),
+    ("http://ex/ns/sub/", "pub2"),
+    ("http://ex/other/", "pub2"),
+    ("http://ex/", "pub/sub"),
+    ("http://ex/ns/", "pub2"),
+    ("http://ex/ns/sub/", "pub/sub/deep"),
+];
+
+/// namespaces used by the free-form IRI generator (configured or not)
+const NS_POOL: &[&str] = &[
+    "http://ex/ns/",
+    "http://ex/ns/inner/",
+    "http://ex/ns/sub/",
+    "http://ex/other/",
+    "http://ex/",
+    "http://ex/ns",
+    "http://ex/nsx/",
+    "http://other.example/",
+    "http://ex/ns/../",
+    "http://ex//",
+];
+
+/// path segments for the free-form generator; `{T}` expands to the absolute path of
+/// the sandbox (without its leading '/'), `{L}` to a 300-character segment (> NAME_MAX),
+/// `{P}` to 2500 one-letter segments (> PATH_MAX)
+const SEG_POOL: &[&str] = &[
+    "a.ttl", "..", "", ".", "sub", "secret.ttl", "{T}", "a", "f", "pub", "outside", "%2e%2e", "inner", "deep", "pub2",
+    "pub-evil", "b.nt", "g", "c.jsonld", "h", "d.rdf", "i", "x.y.ttl", ".hidden", "%2E%2E", ".%2e", "%2e.", "%2f", "..%2f",
+    "%2e%2e%2f", "..%2f..", "%5c", "..%5c", "..%5c..", "...", "..ttl", "..;", "%00", "..%00", "etc", "hostname", "passwd",
+    "{L}", "a.ttl%23", "%2e", "%2e%2e%2fsecret.ttl", "tmp", "{P}",
+];
+
+const TAILS: &[&str] = &["", "#frag", "#../../secret.ttl", "?q=1", "#", ".ttl", "/"];
+
+fn marker(rel: &str) -> String {
+    format!("MARK:{rel}")
+}
+
+fn file_content(rel: &str) -> Vec<u8> {
+    let m = marker(rel);
+    let s = if rel.ends_with(".ttl") {
+        format!("<> <http://ex/marker> \"{m}\" .\n")
+    } else if rel.ends_with(".nt") {
+        format!("<http://ex/f> <http://ex/marker> \"{m}\" .\n")
+    } else if rel.ends_with(".jsonld") {
+        // usable both as a document and as a remote context
+        format!("{{\"@context\":{{\"e\":\"http://ex/\"}},\"@id\":\"http://ex/f\",\"e:marker\":\"{m}\"}}\n")
+    } else if rel.ends_with(".rdf") {
+        format!(
+            "<?xml version=\"1.0\"?>\n<rdf:RDF xmlns:rdf=\"http://www.w3.org/1999/02/22-rdf-syntax-ns#\" xmlns:e=\"http://ex/\"><rdf:Description rdf:about=\"http://ex/f\"><e:marker>{m}</e:marker></rdf:Description></rdf:RDF>\n"
+        )
+    } else {
+        format!("{m}\n")
+    };
+    s.into_bytes()
+}
+
+struct Sandbox {
+    /// canonical absolute path of the sandbox
+    base: PathBuf,
+    /// content -> relative path (every file of the fixed tree)
+    by_content: BTreeMap<Vec<u8>, String>,
+}
+
+static PROCESS_ROOT: Mutex<Option<tempfile::TempDir>> = Mutex::new(None);
+static NEXT_BOX: AtomicUsize = AtomicUsize::new(0);
+
+thread_local! {
+    static SANDBOX: RefCell<Option<Arc<Sandbox>>> = const { RefCell::new(None) };
+}
+
+impl Sandbox {
+    fn build() -> Sandbox {
+        let parent: PathBuf = {
+            let mut g = PROCESS_ROOT.lock().unwrap_or_else(|e| e.into_inner());
+            if g.is_none() {
+                *g = Some(
+                    tempfile::Builder::new()
+                        .prefix("vcheck-c19-")
+                        .tempdir()
+                        .expect("cannot create the sandbox parent directory"),
+                );
+            }
+            g.as_ref().unwrap().path().to_path_buf()
+        };
+        let n = NEXT_BOX.fetch_add(1, Ordering::SeqCst);
+        let base = parent.join(format!("box{n}"));
+        std::fs::create_dir_all(&base).expect("sandbox dir");
+        let base = base.canonicalize().expect("canonicalize sandbox");
+        let mut by_content = BTreeMap::new();
+        for d in DIRS {
+            let dir = if d.is_empty() { base.clone() } else { base.join(d) };
+            std::fs::create_dir_all(&dir).expect("sandbox subdir");
+            for f in FILES {
+                let rel = if d.is_empty() { f.to_string() } else { format!("{d}/{f}") };
+                let c = file_content(&rel);
+                std::fs::write(base.join(&rel), &c).expect("sandbox file");
+                let prev = by_content.insert(c, rel);
+                assert!(prev.is_none(), "marker contents must be unique");
+            }
+        }
+        Sandbox { base, by_content }
+    }
+    fn get() -> Arc<Sandbox> {
+        SANDBOX.with(|s| {
+            let mut s = s.borrow_mut();
+            if s.is_none() {
+                *s = Some(Arc::new(Sandbox::build()));
+            }
+            s.as_ref().unwrap().clone()
+        })
+    }
+    /// `{T}`: absolute path without the leading '/'
+    fn t(&self) -> String {
+        self.base.to_str().expect("utf-8 tempdir").trim_start_matches('/').to_string()
+    }
+}
+
+fn drop_process_root() {
+    let mut g = PROCESS_ROOT.lock().unwrap_or_else(|e| e.into_inner());
+    *g = None; // TempDir::drop removes the tree
+}
+
+// ------------------------------------------------------------------ cases
+
+#[derive(Clone, Debug, Serialize, Deserialize)]
+pub enum IriSpec {
+    /// namespace (index in NS_POOL) + segments (indices in SEG_POOL) + tail
+    Raw { ns: u8, segs: Vec<u8>, tail: u8 },
+    /// an IRI under the namespace of the configured cache `slot`, aimed at the existing
+    /// file DIRS[dir]/FILES[file], written in a given style
+    Target { slot: u8, dir: u8, file: u8, style: u8, tail: u8, strip_ext: bool },
+    /// literal text (`{T}` = absolute sandbox path without leading '/'); for reproducers
+    Lit(String),
+}
+
+#[derive(Clone, Debug, Serialize, Deserialize)]
+pub struct Case {
+    /// indices in CACHE_POOL, in configuration order
+    pub caches: Vec<u8>,
+    /// IRIs passed to `get` directly
+    pub direct: Vec<IriSpec>,
+    /// IRIs written into a document inside the first root and followed through `Resource`
+    pub links: Vec<IriSpec>,
+    /// 0 = N-Triples, 1 = Turtle, 2 = JSON-LD, 3 = JSON-LD whose @context is the first link
+    pub link_fmt: u8,
+}
+
+const STYLES: &[&str] = &[
+    "plain", "dotdot", "absolute", "detour", "encoded", "over-ascend", "dot-prefixed", "encoded-slash", "system-absolute", "system-ascend",
+];
+
+fn comps(rel: &str) -> Vec<&str> {
+    rel.split('/').filter(|s| !s.is_empty()).collect()
+}
+
+fn strip_ext(name: &str) -> &str {
+    match name.rfind('.') {
+        Some(0) | None => name,
+        Some(i) => &name[..i],
+    }
+}
+
+fn render(spec: &IriSpec, caches: &[(String, String)], t: &str) -> String {
+    match spec {
+        IriSpec::Lit(s) => s.replace("{T}", t),
+        IriSpec::Raw { ns, segs, tail } => {
+            let ns = NS_POOL[*ns as usize % NS_POOL.len()];
+            let long = "a".repeat(300);
+            let deep = format!("{}a", "a/".repeat(2499));
+            let segs: Vec<String> = segs
+                .iter()
+                .map(|i| SEG_POOL[*i as usize % SEG_POOL.len()].replace("{T}", t).replace("{L}", &long).replace("{P}", &deep))
+                .collect();
+            let sep = if ns.ends_with('/') { "" } else { "/" };
+            format!("{ns}{sep}{}{}", segs.join("/"), TAILS[*tail as usize % TAILS.len()])
+        }
+        IriSpec::Target { slot, dir, file, style, tail, strip_ext: se } => {
+            let (ns, start) = &caches[*slot as usize % caches.len()];
+            let start = comps(start);
+            let d = DIRS[*dir as usize % DIRS.len()];
+            let mut fname = FILES[*file as usize % FILES.len()];
+            if *se {
+                fname = strip_ext(fname);
+            }
+            let mut target = comps(d);
+            target.push(fname);
+            let common = start.iter().zip(target.iter()).take_while(|(a, b)| a == b).count();
+            let ups = start.len() - common;
+            let rest = target[common..].join("/");
+            let abs = format!("/{t}/{}", target.join("/"));
+            let style = STYLES[*style as usize % STYLES.len()];
+            let path = match style {
+                "plain" | "dotdot" => format!("{}{rest}", "../".repeat(ups)),
+                "absolute" => abs,
+                "detour" => format!("sub/../{}inner/../{rest}", "../".repeat(ups)),
+                "encoded" => format!("{}{rest}", "%2e%2e/".repeat(ups)),
+                "over-ascend" => format!("{}{}", "../".repeat(start.len() + comps(t).len() + 3), &abs[1..]),
+                "dot-prefixed" => format!("./{}{rest}", "../".repeat(ups)),
+                // a file that exists on any Linux system, outside the sandbox
+                "system-absolute" => "/etc/passwd".to_string(),
+                "system-ascend" => format!("{}etc/passwd", "../".repeat(start.len() + comps(t).len() + (*dir as usize % 3))),
+                _ => format!("{}{rest}", "..%2f".repeat(ups)),
+            };
+            format!("{ns}{path}{}", TAILS[*tail as usize % TAILS.len()])
+        }
+    }
+}
+
+// ------------------------------------------------------------------ spying loader
+
+struct Spy {
+    inner: LocalLoader,
+    log: Mutex<Vec<(String, Result<Vec<u8>, String>)>>,
+}
+impl Loader for Spy {
+    fn get<T: Borrow<str>>(&self, iri: Iri<T>) -> Result<(Vec<u8>, String), LoaderError> {
+        let r = self.inner.get(iri.as_ref());
+        let entry = match &r {
+            Ok((bytes, _)) => Ok(bytes.clone()),
+            Err(e) => Err(err_kind(e).to_string()),
+        };
+        self.log
+            .lock()
+            .unwrap_or_else(|e| e.into_inner())
+            .push((iri.as_str().to_string(), entry));
+        r
+    }
+}
+
+fn err_kind(e: &LoaderError) -> &'static str {
+    match e {
+        LoaderError::UnsupportedIri(..) => "unsupported",
+        LoaderError::NotFound(..) => "notfound",
+        LoaderError::IoError(..) => "io",
+        LoaderError::CantGuessSyntax(..) => "cant-guess-syntax",
+        LoaderError::ParseError(..) => "parse",
+    }
+}
+
+// ------------------------------------------------------------------ oracle
+
+struct World<'a> {
+    sb: &'a Sandbox,
+    /// configured (namespace, absolute directory), in order
+    caches: Vec<(String, PathBuf)>,
+    /// per-case documents written inside the first root: content -> absolute path
+    dynamic: BTreeMap<Vec<u8>, PathBuf>,
+}
+
+/// path of the IRI (after scheme and authority), fragment removed
+fn iri_path(iri: &str) -> &str {
+    let no_frag = iri.split('#').next().unwrap();
+    let after_scheme = no_frag.find("://").map(|i| &no_frag[i + 3..]).unwrap_or(no_frag);
+    after_scheme.find('/').map(|i| &after_scheme[i..]).unwrap_or("")
+}
+
+/// stable key describing the trigger present in the IRI
+fn trigger(iri: &str) -> &'static str {
+    let p = iri_path(iri);
+    let segs: Vec<&str> = p.split('/').skip(1).collect();
+    if segs.iter().any(|s| *s == "..") {
+        "dotdot-segment"
+    } else if segs.len() > 1 && segs[..segs.len() - 1].iter().any(|s| s.is_empty()) {
+        "empty-segment"
+    } else if p.contains('%') {
+        "percent-encoded"
+    } else if segs.iter().any(|s| *s == ".") {
+        "dot-segment"
+    } else {
+        "plain"
+    }
+}
+
+impl World<'_> {
+    fn configured_prefix(&self, iri: &str) -> bool {
+        self.caches.iter().any(|(ns, _)| iri.starts_with(ns.as_str()))
+    }
+    /// Which file has this content? (absolute path)
+    fn locate(&self, bytes: &[u8]) -> Option<PathBuf> {
+        if let Some(rel) = self.sb.by_content.get(bytes) {
+            return Some(self.sb.base.join(rel));
+        }
+        self.dynamic.get(bytes).cloned()
+    }
+    fn allowed(&self, iri: &str, file: &Path) -> bool {
+        self.caches
+            .iter()
+            .any(|(ns, dir)| iri.starts_with(ns.as_str()) && file.starts_with(dir) && file != dir.as_path())
+    }
+    /// The property, for one `get`: Ok(bytes) ⇒ bytes is the content of a file inside
+    /// a directory mapped to a namespace prefixing the IRI.
+    fn check_get(&self, via: &str, iri: &str, res: &Result<Vec<u8>, String>, ctx: &mut Ctx) {
+        match res {
+            Err(k) => ctx.class(format!("{via}:err-{k}")),
+            Ok(bytes) => match self.locate(bytes) {
+                None => {
+                    ctx.class(format!("{via}:ok-ESCAPED"));
+                    ctx.fail(
+                        format!("escape/{}", trigger(iri)),
+                        format!(
+                            "{via}: get(<{iri}>) returned {} bytes that are not the content of any file of the sandbox (a file outside every configured directory was read): {:?}",
+                            bytes.len(),
+                            String::from_utf8_lossy(&bytes[..bytes.len().min(80)])
+                        ),
+                    );
+                }
+                Some(p) => {
+                    if self.allowed(iri, &p) {
+                        ctx.class(format!("{via}:ok-inside"));
+                    } else {
+                        ctx.class(format!("{via}:ok-ESCAPED"));
+                        let cfg: Vec<String> = self
+                            .caches
+                            .iter()
+                            .map(|(ns, d)| format!("{ns} -> {}", d.display()))
+                            .collect();
+                        ctx.fail(
+                            format!("escape/{}", trigger(iri)),
+                            format!(
+                                "{via}: get(<{iri}>) returned the content of {} which is not inside a directory mapped to a namespace prefixing the IRI; configuration: [{}]",
+                                p.display(),
+                                cfg.join(", ")
+                            ),
+                        );
+                    }
+                }
+            },
+        }
+    }
+    /// Model-side reading of what a naive join would open (used for class labels only).
+    fn naive_target(&self, iri: &str) -> Option<PathBuf> {
+        let no_frag = iri.split('#').next().unwrap();
+        let (ns, dir) = self.caches.iter().find(|(ns, _)| no_frag.starts_with(ns.as_str()))?;
+        let rem = &no_frag[ns.len()..];
+        let mut cur: Vec<String> = if rem.starts_with('/') {
+            vec![]
+        } else {
+            dir.components()
+                .filter_map(|c| match c {
+                    std::path::Component::Normal(s) => Some(s.to_str()?.to_string()),
+                    _ => None,
+                })
+                .collect()
+        };
+        for s in rem.split('/') {
+            match s {
+                "" | "." => {}
+                ".." => {
+                    cur.pop();
+                }
+                x => cur.push(x.to_string()),
+            }
+        }
+        Some(PathBuf::from(format!("/{}", cur.join("/"))))
+    }
+    fn classify(&self, iri: &str, ctx: &mut Ctx) -> bool {
+        let p = iri_path(iri);
+        let under = self.configured_prefix(iri);
+        ctx.class(if under { "iri:under-configured-ns" } else { "iri:outside-configured-ns" });
+        let segs: Vec<&str> = p.split('/').skip(1).collect();
+        let dotdot = segs.iter().any(|s| *s == "..");
+        let dot = segs.iter().any(|s| *s == ".");
+        let empty = segs.len() > 1 && segs[..segs.len() - 1].iter().any(|s| s.is_empty());
+        let pct = p.contains('%');
+        if dotdot {
+            ctx.class("iri:dotdot-segment");
+        }
+        if dot {
+            ctx.class("iri:dot-segment");
+        }
+        if empty {
+            ctx.class("iri:empty-segment");
+        }
+        if pct {
+            ctx.class("iri:percent-encoded");
+        }
+        if iri.contains('#') {
+            ctx.class("iri:fragment");
+        }
+        if segs.iter().any(|s| s.len() > 255) {
+            ctx.class("iri:segment-longer-than-NAME_MAX");
+        }
+        if iri.len() > 4096 {
+            ctx.class("iri:longer-than-PATH_MAX");
+        }
+        if under {
+            if let Some(t) = self.naive_target(iri) {
+                let with_ext = ["", ".ttl", ".nt", ".jsonld", ".rdf"]
+                    .iter()
+                    .map(|e| PathBuf::from(format!("{}{e}", t.display())))
+                    .find(|p| p.is_file());
+                if let Some(f) = with_ext {
+                    if self.allowed(iri, &f) {
+                        ctx.class("aim:existing-file-inside");
+                    } else if f.starts_with(&self.sb.base) {
+                        ctx.class("aim:existing-file-OUTSIDE(sandbox)");
+                    } else {
+                        ctx.class("aim:existing-file-OUTSIDE(system)");
+                    }
+                }
+            }
+        }
+        under && (dotdot || dot || empty || pct)
+    }
+}
+
+struct DynGuard(PathBuf);
+impl Drop for DynGuard {
+    fn drop(&mut self) {
+        let _ = std::fs::remove_dir_all(&self.0);
+    }
+}
+
+pub struct C19;
+
+impl C19 {
+    fn config(case: &Case) -> Vec<(String, String)> {
+        let mut v: Vec<(String, String)> = case
+            .caches
+            .iter()
+            .take(3)
+            .map(|i| {
+                let (ns, d) = CACHE_POOL[*i as usize % CACHE_POOL.len()];
+                (ns.to_string(), d.to_string())
+            })
+            .collect();
+        if v.is_empty() {
+            v.push((CACHE_POOL[0].0.to_string(), CACHE_POOL[0].1.to_string()));
+        }
+        v
+    }
+}
+
+fn valid_iri(s: &str) -> Option<Iri<String>> {
+    Iri::new(s.to_string()).ok()
+}
+
+impl Check for C19 {
+    type Case = Case;
+    const ID: &'static str = "C19";
+    fn rule() -> String {
+        "case = configuration (1-3 namespace->directory pairs out of 7, nested/overlapping/duplicate namespaces, order significant) + up to 8 IRIs fetched with LocalLoader::get + up to 4 IRIs written as links into an N-Triples/Turtle/JSON-LD document inside the first root and followed with Resource::get_any_resource/get_resource (every Loader::get performed is spied). Non-trivial = the case contains at least one valid IRI under a configured namespace having a '..', '.', empty or percent-encoded path segment; distinct by hash of the case.".into()
+    }
+    fn assumptions() -> Vec<String> {
+        vec![
+            "only strings accepted by Iri::new are passed to the loader (the statement quantifies over IRIs); backslashes therefore only occur percent-encoded".into(),
+            "the sandbox contains no symbolic links; races on the file system are not modelled".into(),
+            "returned bytes identify the opened file because every sandbox file has a unique content; bytes that match no sandbox file (e.g. /etc/hostname) are reported as an escape".into(),
+            "an error value of any kind is always acceptable (the statement allows 'reports an error'); a panic is reported".into(),
+        ]
+    }
+    fn cases(tier: Tier) -> u32 {
+        tier.pick(400_000, 12_000_000)
+    }
+    fn strategy(_tier: Tier) -> BoxedStrategy<Case> {
+        let raw = (0..NS_POOL.len() as u8, prop::collection::vec(seg_idx(), 1..=6), tail_idx())
+            .prop_map(|(ns, segs, tail)| IriSpec::Raw { ns, segs, tail });
+        let target = (0..3u8, 0..DIRS.len() as u8, 0..FILES.len() as u8, 0..STYLES.len() as u8, tail_idx(), any::<bool>())
+            .prop_map(|(slot, dir, file, style, tail, strip_ext)| IriSpec::Target { slot, dir, file, style, tail, strip_ext });
+        let spec = prop_oneof![1 => raw, 1 => target].boxed();
+        (
+            prop::collection::vec(0..CACHE_POOL.len() as u8, 1..=3),
+            prop::collection::vec(spec.clone(), 1..=8),
+            prop::collection::vec(spec, 0..=4),
+            0..4u8,
+        )
+            .prop_map(|(caches, direct, links, link_fmt)| Case { caches, direct, links, link_fmt })
+            .boxed()
+    }
+    fn fixed_cases(_tier: Tier, _seed: u64) -> Vec<Case> {
+        // every single configured pair x every existing file x every style, directly and as a link
+        let mut v = vec![];
+        for c in 0..CACHE_POOL.len() as u8 {
+            for style in 0..STYLES.len() as u8 {
+                for dir in 0..DIRS.len() as u8 {
+                    let mk = |se: bool| -> Vec<IriSpec> {
+                        (0..FILES.len() as u8)
+                            .map(|file| IriSpec::Target { slot: 0, dir, file, style, tail: 0, strip_ext: se })
+                            .collect()
+                    };
+                    v.push(Case { caches: vec![c], direct: mk(false), links: vec![], link_fmt: 0 });
+                    v.push(Case { caches: vec![c], direct: mk(true), links: vec![], link_fmt: 0 });
+                    for fmt in 0..3u8 {
+                        v.push(Case { caches: vec![c], direct: vec![], links: mk(false)[..6].to_vec(), link_fmt: fmt });
+                    }
+                    // remote JSON-LD context: c.jsonld / h(.jsonld)
+                    v.push(Case { caches: vec![c], direct: vec![], links: vec![IriSpec::Target { slot: 0, dir, file: 3, style, tail: 0, strip_ext: false }], link_fmt: 3 });
+                    v.push(Case { caches: vec![c], direct: vec![], links: vec![IriSpec::Target { slot: 0, dir, file: 7, style, tail: 0, strip_ext: true }], link_fmt: 3 });
+                }
+            }
+        }
+        v
+    }
+    fn show(case: &Case) -> Value {
+        let cfg = C19::config(case);
+        let r = |s: &IriSpec| render(s, &cfg, "{T}");
+        json!({
+            "configuration": cfg.iter().map(|(n, d)| format!("{n} -> {{T}}/{d}")).collect::<Vec<_>>(),
+            "direct": case.direct.iter().map(r).collect::<Vec<_>>(),
+            "links": case.links.iter().map(r).collect::<Vec<_>>(),
+            "link_document": (["links.nt", "links.ttl", "links.jsonld", "links.jsonld (first link is also its remote @context)"][case.link_fmt as usize % 4]),
+        })
+    }
+    fn run(case: &Case, ctx: &mut Ctx) {
+        let sb = Sandbox::get();
+        let t = sb.t();
+        let cfg = C19::config(case);
+        let mut world = World {
+            sb: &sb,
+            caches: cfg.iter().map(|(ns, d)| (ns.clone(), sb.base.join(d))).collect(),
+            dynamic: BTreeMap::new(),
+        };
+        ctx.class(format!("config:{}-roots", cfg.len()));
+        {
+            let nested = cfg.iter().enumerate().any(|(i, (a, _))| cfg.iter().enumerate().any(|(j, (b, _))| i != j && b.starts_with(a.as_str())));
+            if nested {
+                ctx.class("config:nested-or-overlapping-namespaces");
+            }
+        }
+        let loader = match LocalLoader::new(
+            world
+                .caches
+                .iter()
+                .map(|(ns, d)| (Iri::new_unchecked(MownStr::from(ns.clone())), d.clone()))
+                .collect(),
+        ) {
+            Ok(l) => l,
+            Err(e) => {
+                ctx.fail("harness/loader-construction", format!("LocalLoader::new failed on a valid configuration: {e}"));
+                return;
+            }
+        };
+        let spy = Arc::new(Spy { inner: loader, log: Mutex::new(vec![]) });
+        let mut nontrivial = false;
+
+        // ---- IRIs from the caller
+        for spec in &case.direct {
+            let s = render(spec, &cfg, &t);
+            let Some(iri) = valid_iri(&s) else {
+                ctx.class("iri:rejected-by-Iri::new(skipped)");
+                continue;
+            };
+            nontrivial |= world.classify(&s, ctx);
+            match catch(|| spy.inner.get(iri.as_ref())) {
+                Err(p) => ctx.fail(format!("loader-panic/{}", site(&p)), format!("get(<{s}>) panicked: {p}")),
+                Ok(r) => {
+                    let r = r.map(|(b, _)| b).map_err(|e| err_kind(&e).to_string());
+                    world.check_get("direct", &s, &r, ctx);
+                }
+            }
+        }
+
+        // ---- IRIs found in loaded data
+        let links: Vec<String> = case
+            .links
+            .iter()
+            .map(|spec| render(spec, &cfg, &t))
+            .filter(|s| {
+                let ok = valid_iri(s).is_some();
+                if !ok {
+                    ctx.class("iri:rejected-by-Iri::new(skipped)");
+                }
+                ok
+            })
+            .collect();
+        if !links.is_empty() {
+            let (ns0, dir0) = world.caches[0].clone();
+            let dyn_dir = dir0.join("dyn");
+            let _ = std::fs::remove_dir_all(&dyn_dir);
+            let _guard = DynGuard(dyn_dir.clone());
+            std::fs::create_dir_all(&dyn_dir).expect("dyn dir");
+            let fmt = case.link_fmt % 4;
+            let ext = ["nt", "ttl", "jsonld", "jsonld"][fmt as usize];
+            ctx.class(format!("links:via-{ext}{}", if fmt == 3 { "+remote-context" } else { "" }));
+            let doc_iri = format!("{ns0}dyn/links.{ext}");
+            let mut doc = String::new();
+            match fmt {
+                0 => {
+                    for (i, l) in links.iter().enumerate() {
+                        doc.push_str(&format!("<{doc_iri}> <http://ex/p{i}> <{l}> .\n"));
+                    }
+                }
+                1 => {
+                    doc.push_str("# MARK:dyn\n");
+                    for (i, l) in links.iter().enumerate() {
+                        doc.push_str(&format!("<> <http://ex/p{i}> <{l}> .\n"));
+                    }
+                }
+                _ => {
+                    let props: Vec<String> = links
+                        .iter()
+                        .enumerate()
+                        .map(|(i, l)| format!("{}: {{\"@id\": {}}}", Value::String(format!("http://ex/p{i}")), Value::String(l.clone())))
+                        .collect();
+                    let context = if fmt == 3 {
+                        format!("\"@context\": [{}], ", Value::String(links[0].clone()))
+                    } else {
+                        String::new()
+                    };
+                    doc = format!("{{{context}\"@id\": {}, {}}}\n", Value::String(doc_iri.clone()), props.join(", "));
+                }
+            }
+            let path = dyn_dir.join(format!("links.{ext}"));
+            std::fs::write(&path, doc.as_bytes()).expect("links file");
+            world.dynamic.insert(doc.clone().into_bytes(), path);
+            for l in &links {
+                nontrivial |= world.classify(l, ctx);
+            }
+            let root: Result<Result<Resource<LightGraph, Spy>, LoaderError>, String> =
+                catch(|| spy.get_resource::<_, LightGraph>(Iri::new_unchecked(doc_iri.as_str())));
+            match root {
+                Err(p) => ctx.fail(format!("loader-panic/{}", site(&p)), format!("get_resource(<{doc_iri}>) panicked: {p}")),
+                Ok(Err(e)) => {
+                    // e.g. the JSON-LD document's remote context could not be loaded
+                    ctx.class(format!("links:document-not-loaded({})", err_kind(&e)));
+                }
+                Ok(Ok(res)) => {
+                    ctx.class("links:document-loaded");
+                    for (i, l) in links.iter().enumerate() {
+                        let pred = Iri::new_unchecked(format!("http://ex/p{i}"));
+                        let r = catch(|| {
+                            if i % 2 == 0 {
+                                res.get_any_resource(pred.as_ref())
+                            } else {
+                                res.get_resource(pred.as_ref()).map(Some)
+                            }
+                        });
+                        match r {
+                            Err(p) => ctx.fail(format!("loader-panic/{}", site(&p)), format!("following the link <{l}> panicked: {p}")),
+                            Ok(Err(_)) => ctx.class("links:follow-error"),
+                            Ok(Ok(None)) => ctx.class("links:no-such-link(normalised away by the parser)"),
+                            Ok(Ok(Some(nb))) => {
+                                ctx.class("links:followed");
+                                world.check_graph(&doc_iri, l, &nb, ctx);
+                            }
+                        }
+                    }
+                }
+            }
+            let log = std::mem::take(&mut *spy.log.lock().unwrap_or_else(|e| e.into_inner()));
+            for (iri, r) in &log {
+                world.check_get("link", iri, r, ctx);
+            }
+        }
+        if nontrivial {
+            ctx.nontrivial();
+        }
+    }
+}
+
+impl World<'_> {
+    /// No marker of a file outside the permitted directories may appear in a graph
+    /// obtained by following a link.
+    fn check_graph(&self, doc_iri: &str, link: &str, nb: &Resource<LightGraph, Spy>, ctx: &mut Ctx) {
+        let Some(base) = nb.base() else { return };
+        let loaded_from = base.as_str().to_string();
+        if loaded_from == doc_iri {
+            return; // same document: nothing was loaded
+        }
+        for tr in nb.graph().triples() {
+            let Ok(tr) = tr else { continue };
+            let Some(lex) = tr.o().lexical_form() else { continue };
+            let Some(rel) = lex.strip_prefix("MARK:") else { continue };
+            let file = self.sb.base.join(rel);
+            if self.allowed(&loaded_from, &file) {
+                ctx.class("links:graph-from-inside-file");
+            } else {
+                ctx.fail(
+                    format!("escape/{}", trigger(&loaded_from)),
+                    format!(
+                        "following the link <{link}> found in <{doc_iri}> produced a graph (loaded from <{loaded_from}>) containing the marker of {}, a file outside the directories mapped to namespaces prefixing that IRI",
+                        file.display()
+                    ),
+                );
+            }
+        }
+    }
+}
+
+/// panic site relative to the repository (stable across checkouts)
+fn site(msg: &str) -> String {
+    let s = panic_site(msg);
+    match s.find("/src/") {
+        Some(i) => {
+            let start = s[..i].rfind('/').map(|j| j + 1).unwrap_or(0);
+            s[start..].to_string()
+        }
+        None => s,
+    }
+}
+
+fn seg_idx() -> BoxedStrategy<u8> {
+    // the first dozen entries (plain names, '..', '', '.', {T}) are the frequent ones
+    prop_oneof![3 => 0..12u8, 1 => 0..SEG_POOL.len() as u8].boxed()
+}
+fn tail_idx() -> BoxedStrategy<u8> {
+    prop_oneof![3 => Just(0u8), 2 => 0..TAILS.len() as u8].boxed()
+}
+
+pub fn main(opts: &Opts) -> i32 {
+    let code = drive::<C19>(opts);
+    drop_process_root();
+    code
 }
 pub fn worker(_args: &[String]) -> i32 {
     2
